@@ -523,9 +523,15 @@ def run_script(lines0, traj, ops, *, edit_cmds=("Slow", "Quick"), inj_cmds=("Slo
                     pcode, keys, has_block = render_snippet(o["snippet"], 800 + 10 * i, ic[0], ic[1])
                     before = ms_sets(h.method_state())
                     running_cmds = sorted(h.uod.command_instances.keys()) if hasattr(h.uod, "command_instances") else []
-                    h.inject(pcode)
+                    state_at = h.state
+                    refused = None
+                    try:
+                        h.inject(pcode)
+                    except Exception as ex:      # the engine's answer to the inject request (well-formed snippet): recorded, judged by C14
+                        refused = "%s: %s" % (type(ex).__name__, str(ex)[:160])
                     res["injects"].append({"op": i, "tick": t, "pcode": pcode, "keys": keys, "has_block": has_block,
-                                           "ms_before": before, "cmds_running": running_cmds, "state": h.state})
+                                           "ms_before": before, "cmds_running": running_cmds, "state": state_at, "refused": refused,
+                                           "state_after": h.state, "status_after": str(h.tagv("Method Status"))})
                 elif o["op"] == "edit":
                     before = ms_sets(h.method_state())
                     new, info = resolve_edit(lines, before, o, i + 1, edit_cmds[0], edit_cmds[1])
@@ -661,7 +667,7 @@ def valid_tree(tree) -> bool:
                 return False
             k = n.get("k")
             if k in ("slow", "ova"):
-                if not (isinstance(n.get("n"), int) and 1 <= n["n"] <= 4):
+                if not (isinstance(n.get("n"), int) and 1 <= n["n"] <= 9):      # iterations (pcode_gen draws 1-4, C01 also up to 9)
                     return False
             elif k == "wait":
                 if not (isinstance(n.get("d"), (int, float)) and 0 <= n["d"] <= 1.5):
